@@ -40,16 +40,31 @@ fn stub_check<T: RDH, C: ChecksOpt + FilterOpt + CustomChecksOpt>(_v: &mut CdpRu
     }
 }
 
-// @harness id=bnd40_do_payload_checks props=C12,C01,C02,C07,C04 kind=bnd tier=quick bound=payload<=40B fns=do_payload_checks,preprocess_payload,CdpRunningValidator::set_current_rdh,CdpRunningValidator::reset_fsm stubs=alloc::fmt::format,flume::Sender::send,CdpRunningValidator::check
-// Every word of the payload is handed to the validator exactly once, in order, as the 10 bytes at its slot;
-// padding is never a word; a payload ending in more than 15 bytes of 0xFF is reported once (at the RDH
-// offset), no word is examined and the protocol state is reset to the initial state.
+// @harness id=bnd40_do_payload_checks_ok props=C12,C01,C07,C04 kind=bnd tier=quick bound=payload<=40B fns=do_payload_checks,preprocess_payload,CdpRunningValidator::set_current_rdh stubs=alloc::fmt::format,flume::Sender::send,CdpRunningValidator::check
+// Every word of an accepted payload is handed to the validator exactly once, in order, as the 10 bytes at
+// its slot; padding is never a word.
 #[kani::proof]
 #[kani::stub(alloc::fmt::format, stub_format_nonempty)]
 #[kani::stub(flume::Sender::send, stub_send)]
 #[kani::stub(CdpRunningValidator::check, stub_check)]
 #[kani::unwind(42)]
-fn bnd40_do_payload_checks() {
+fn bnd40_do_payload_checks_ok() {
+    do_payload_checks_case(false);
+}
+
+// @harness id=bnd40_do_payload_checks_err props=C12,C02,C04 kind=bnd tier=quick bound=payload<=40B fns=do_payload_checks,preprocess_payload,CdpRunningValidator::reset_fsm stubs=alloc::fmt::format,flume::Sender::send,CdpRunningValidator::check
+// A payload ending in more than 15 bytes of 0xFF is reported once (at the RDH offset), no word is examined
+// and the protocol state is reset to the initial state.
+#[kani::proof]
+#[kani::stub(alloc::fmt::format, stub_format_nonempty)]
+#[kani::stub(flume::Sender::send, stub_send)]
+#[kani::stub(CdpRunningValidator::check, stub_check)]
+#[kani::unwind(42)]
+fn bnd40_do_payload_checks_err() {
+    do_payload_checks_case(true);
+}
+
+fn do_payload_checks_case(error_path: bool) {
     let rb: [u8; 64] = kani::any();
     let rdh = RdhCru::from_buf(&rb[..]).unwrap();
     let s = fake_sender();
@@ -67,7 +82,10 @@ fn bnd40_do_payload_checks() {
     }
     let v0 = len >= 16 && p[10] == 0 && p[11] == 0 && p[12] == 0 && p[13] == 0 && p[14] == 0 && p[15] == 0;
     kani::assume(!v0 || len % 16 == 0);
-    kani::assume(v0 || run > 9 || true);
+    kani::assume((run > 15) == error_path);
+    // word-aligned payloads only: a format-2 payload whose length is not a multiple of 10 (after cutting 10..15
+    // padding bytes) trips debug_assert!s in chunkify_payload in debug builds (known finding, see nopanic harness)
+    kani::assume(v0 || error_path || (if run > 9 { (len - run) % 10 == 0 } else { true }));
     unsafe { CHECK_BASE = p.as_ptr() as usize; CHECK_STRIDE = if v0 { 16 } else { 10 }; }
     let pos: u64 = kani::any();
     kani::assume(pos < (1 << 62));
@@ -84,8 +102,8 @@ fn bnd40_do_payload_checks() {
         assert!(calls == expect, "[C12] every word is examined exactly once; padding is never a word");
         assert!(unsafe { CHECK_ORDER_OK }, "[C12][C07] the k-th word examined is the 10 bytes at slot k of the payload");
     }
-    kani::cover!(run > 15);
-    kani::cover!(run <= 15 && calls == 3);
+    kani::cover!(calls == 3 || error_path);
     core::mem::forget(v);
     core::mem::forget(s);
 }
+
